@@ -82,14 +82,19 @@ class Ctx:
             nret: dict[bool, int] = {True: 0, False: 0}
             other = False
             for n in cfg.nodes:
-                if n.kind == "stmt" and isinstance(n.ast, ast.Return):
+                if n.kind == "stmt" and isinstance(n.ast, ast.Return) and res.get(n.id) is not None:
                     v = n.ast.value
-                    if isinstance(v, ast.Constant) and isinstance(v.value, bool) and res.get(n.id) is not None:
-                        z = res[n.id]
-                        per[v.value] = z.copy() if v.value not in per or per[v.value] is None else per[v.value].join(z)
-                        nret[v.value] += 1
+                    if isinstance(v, ast.Constant) and isinstance(v.value, bool):
+                        vals = [v.value]
+                    elif v is not None and h.node.returns is not None and ast.unparse(h.node.returns) == "bool":
+                        vals = [True, False]          # a computed boolean: this return may give either result
                     else:
                         other = True
+                        continue
+                    for val in vals:
+                        z = res[n.id]
+                        per[val] = z.copy() if val not in per or per[val] is None else per[val].join(z)
+                        nret[val] += 1
             cache[h] = None if other else per
         per = cache[h]
         if not per or per.get(value) is None:
